@@ -42,17 +42,22 @@ FN = "dumpparser.parse_dump_xml"
 MODELS = {"wikitext", "Scribunto", "json"}
 
 
+def _u(e: ast.AST) -> str:
+    """source text with the suffix the canonicaliser gives to inlined helper locals removed"""
+    return unparse(e).replace("__h", "")
+
+
 def _atom(ctx, e: ast.AST):
-    t = unparse(e)
+    t = _u(e)
     if isinstance(e, ast.Compare) and len(e.ops) == 1:
         op, l, r = e.ops[0], e.left, e.comparators[0]
-        if isinstance(op, (ast.In, ast.NotIn)) and unparse(l) == "namespace_id" and unparse(r) == "namespace_ids":
+        if isinstance(op, (ast.In, ast.NotIn)) and _u(l) == "namespace_id" and _u(r) == "namespace_ids":
             return ("selected", isinstance(op, ast.NotIn))
-        if isinstance(op, (ast.In, ast.NotIn)) and isinstance(l, ast.Constant) and unparse(r) == "title":
+        if isinstance(op, (ast.In, ast.NotIn)) and isinstance(l, ast.Constant) and _u(r) == "title":
             if l.value == "/testcases":
                 return ("testcases", isinstance(op, ast.NotIn))
             raise AnalysisError("parse_dump_xml: unexpected substring test {!r} on title".format(l.value))
-        if isinstance(op, (ast.In, ast.NotIn)) and unparse(l) == "model":
+        if isinstance(op, (ast.In, ast.NotIn)) and _u(l) == "model":
             try:
                 s = ctx.index.fold("dumpparser", r)
             except Unfoldable:
@@ -62,7 +67,7 @@ def _atom(ctx, e: ast.AST):
             return ("model_ok", isinstance(op, ast.NotIn))
         if isinstance(op, (ast.Is, ast.IsNot)) and isinstance(r, ast.Constant) and r.value is None and "redirect" in t:
             return ("redirect", isinstance(op, ast.Is))
-    if isinstance(e, ast.Call) and isinstance(e.func, ast.Attribute) and unparse(e.func.value) == "title":
+    if isinstance(e, ast.Call) and isinstance(e.func, ast.Attribute) and _u(e.func.value) == "title":
         if e.func.attr == "endswith" and e.args and isinstance(e.args[0], ast.Constant):
             if e.args[0].value == "/documentation":
                 return ("doc", False)
@@ -155,8 +160,8 @@ def rule_r2(ctx) -> RuleResult:
         elif isinstance(n, ast.AugAssign):
             tgts = [(n.target, n.value)]
         for t, v in tgts:
-            if isinstance(t, ast.Name) and t.id in ACCESSORS:
-                if not isinstance(n, ast.AugAssign) and _is_accessor(t.id, v):
+            if isinstance(t, ast.Name) and t.id.replace("__h", "") in ACCESSORS:
+                if not isinstance(n, ast.AugAssign) and _is_accessor(t.id.replace("__h", ""), v):
                     rr.ok(FN, "{} = {}".format(t.id, unparse(v)), {"name": t.id, "source": unparse(v)})
                 else:
                     rr.bad(Finding("C12.R2", DUMP, FN, unparse(n),
